@@ -40,11 +40,11 @@ TInit == /\ l = 1 /\ tr = NoRecv0 /\ pend = <<>>
          /\ TLCSet(1, 1)
          \* the variables of ScRecv that the receiver operators read
          /\ mode = "None"
-         /\ plan = <<>> /\ sp = Plain /\ sw = [kind |-> "none", from |-> 0]
+         /\ plan = <<>> /\ sp = Plain /\ sw = [kind |-> "none", from |-> 0] /\ split = "any" /\ pre = "none"
          /\ sentN = <<>> /\ nextSeq = 0 /\ wire = <<>> /\ held = <<>> /\ heldAge = 0 /\ budget = 0 /\ renewed = FALSE
          /\ rc = NoRecv0 /\ ra = NoRecv0 /\ hist = <<>>
 
-Keep == UNCHANGED <<plan, sp, sw, sentN, nextSeq, wire, held, heldAge, budget, renewed, rc, ra, hist>>
+Keep == UNCHANGED <<plan, sp, sw, split, pre, sentN, nextSeq, wire, held, heldAge, budget, renewed, rc, ra, hist>>
 
 More == l <= Len(Log)
 
